@@ -13,6 +13,8 @@ pub const TOK_FRAGMENTS: &[&str] = &[
     "<averyveryverylongtagname0123456789 ", "averyveryverylongattributename0123456789=", "\"a very very very long attribute value 0123456789 &amp; more\"",
     "<!--a very very very long comment 0123456789 - with - dashes-->", "<!DOCTYPE averyveryverylongdoctypename PUBLIC \"a very very long public identifier\" 'and a long system identifier'>",
     "some long text of more than sixteen bytes, and then some more", "&CounterClockwiseContourIntegral;", "&CounterClockwiseContourIntegra",
+    // non-ASCII letters with a Unicode (not ASCII) lower-case mapping: names are ASCII-lowercased only
+    "É", "\u{212A}", "İ", "Σ", "<!DOCTYPE hÉ>", "<!doctype htm\u{212A}>", "<É", "<aÉ b=c>", "<a É=Ü>", "</aÉ>", "<TITLÉ>", "</TITLÉ>", "<sCRİPT>",
     "&#x100000041;", "&#4294967361;", "&#x0000000041;", "&#99999999999;", "</title/>", "</script/>", "</style/>", "</textarea/>", "</xmp/ x>", "</title x=y>", "</script\t>", "</TITLE/>", "<!x>", "<!-", "<!->", "<!--->", "<!---->", "<!-- <!-- -->", "--!", "<![", "<![cdata[", "]]", "PUBLIC", "system",
 ];
 
@@ -29,6 +31,8 @@ pub fn tok_soup(s: &mut Src, max_frags: usize) -> String {
                 out.push(*s.pick(&['a', 'b', ' ', 'c', '\n', 'é', 'd', 'e']));
             }
             out.push(*s.pick(&['<', '&', '\r', '\0', 'x']));
+        } else if s.chance(4) {
+            many_attrs_tag(s, &mut out);
         } else if s.chance(200) {
             out.push_str(*s.pick(TOK_FRAGMENTS));
         } else {
@@ -36,6 +40,39 @@ pub fn tok_soup(s: &mut Src, max_frags: usize) -> String {
         }
     }
     noise(s, out)
+}
+
+/// A start (rarely end) tag with many attributes: 9-80 mostly distinct names, each of which
+/// may be repeated later in the tag (thresholds of duplicate detection, small vectors, hashing).
+pub fn many_attrs_tag(s: &mut Src, out: &mut String) {
+    let n = *s.pick(&[9usize, 15, 16, 17, 31, 32, 33, 34, 40, 63, 64, 65, 80]) + s.below(3);
+    out.push_str(*s.pick(&["<div", "<a", "<svg", "<b", "<td", "<input", "</p", "<math", "<option", "<html", "<body"]));
+    let mut names: Vec<String> = vec![];
+    for i in 0..n {
+        let name = if !names.is_empty() && s.chance(24) {
+            // repeat an earlier attribute (any position, biased to the latest and to the thresholds)
+            let j = match s.below(4) {
+                0 => names.len() - 1,
+                1 => s.below(names.len()),
+                2 => (*s.pick(&[0usize, 7, 8, 15, 16, 31, 32, 33, 63, 64])).min(names.len() - 1),
+                _ => names.len().saturating_sub(1 + s.below(3)),
+            };
+            let r = names[j].clone();
+            if s.chance(60) { r.to_ascii_uppercase() } else { r }
+        } else {
+            format!("n{i}")
+        };
+        out.push(*s.pick(&[' ', ' ', '\n', '/']));
+        out.push_str(&name);
+        match s.below(4) {
+            0 => {},
+            1 => out.push_str(&format!("=v{i}")),
+            2 => out.push_str(&format!("=\"w {i}\"")),
+            _ => out.push_str("='x'"),
+        }
+        names.push(name.to_ascii_lowercase());
+    }
+    out.push_str(*s.pick(&[">", ">", "/>", " >"]));
 }
 
 /// character-level insert / delete / replace
@@ -125,10 +162,25 @@ const ATTRS: &[&str] = &[
     "definitionurl=u", "definitionURL=v", "viewbox=1", "viewBox=\"0 0 1 1\"", "attributename=x", "shadowrootmode=open",
     "shadowrootmode=closed", "shadowrootmode=x", "selected", "multiple", "charset=utf-8", "http-equiv=content-type",
     "content=\"text/html; charset=x\"", "form=f", "href=#", "name=n", "x", "x=1", "x=2", "a='b'", "a=\"c\"", "disabled",
+    // values the algorithm compares as a whole: near misses of each magic value
+    "encoding=text/html;charset=utf-8", "encoding=\"text/html \"", "encoding=\" text/html\"", "encoding=text/htmlx", "encoding=text/htm",
+    "encoding=\"application/xhtml+xml;q=1\"", "encoding=Text/HTML;", "encoding=application/xhtml", "type=hidden;", "type=\" hidden\"",
+    "type=hiddenx", "type=HIDDEN\t", "type=hıdden", "shadowrootmode=opened", "shadowrootmode=OPEN", "shadowrootmode=\"open \"",
+    "http-equiv=\"content-type \"", "http-equiv=content-typ", "color", "color=", "face", "size", "selected=no", "multiple=multiple",
     "nonce=n", "data-a-very-long-attribute-name-0123456789=\"a long value, more than sixteen bytes\"", "title='another quite long value 0123456789'", "=", "a=&amp;", "b=&ampx", "é=ü", "\0=\0", "xlink:bogus=1", "xml:bogus=1", "xmlns:bogus=1",
 ];
 
 fn gen_attrs(s: &mut Src, out: &mut String) {
+    if s.chance(3) {
+        // many attributes (the tag name is already written)
+        let mut t = String::new();
+        many_attrs_tag(s, &mut t);
+        if let Some(i) = t.find(|c: char| c == ' ' || c == '\n' || c == '/') {
+            let body = t[i..].trim_end_matches(|c| c == '>' || c == '/');
+            out.push_str(body);
+        }
+        return;
+    }
     let n = match s.below(8) {
         0..=3 => 0,
         4 | 5 => 1,
